@@ -355,6 +355,7 @@ func (ip *FileIP) WriteAuditLogToFile() {
 	ip.createDirs("")
 	writeErr := ioutil.WriteFile(ip.AuditFilePath(), auditInfoJSON, 0644)
 	CheckWithMsg(writeErr, "Could not write audit file: "+ip.Path())
+	vhook("audit.write", "path", ip.AuditFilePath())
 }
 
 // AuditInfo returns the AuditInfo struct for the FileIP
